@@ -934,7 +934,8 @@ def clang_summaries():
         elif k == "CXXMemberCallExpr":
             me = n["inner"][0]
             while me.get("kind") != "MemberExpr" and me.get("inner"): me = me["inner"][0]
-            acc["members"].append(me.get("name", "?"))
+            if not me.get("name", "?").startswith("operator"):      # implicit conversion operators (`operator int` of an iterator proxy) are not calls the source spells
+                acc["members"].append(me.get("name", "?"))
         elif k == "CXXOperatorCallExpr":
             cal = n["inner"][0]
             while cal.get("kind") != "DeclRefExpr" and cal.get("inner"): cal = cal["inner"][0]
